@@ -8,6 +8,7 @@ import (
 	"strings"
 	"testing"
 
+	apiv1 "k8s.io/api/core/v1"
 	metav1 "k8s.io/apimachinery/pkg/apis/meta/v1"
 	gatewayv1 "sigs.k8s.io/gateway-api/apis/v1"
 	"sigs.k8s.io/gateway-api/apis/v1alpha2"
@@ -104,10 +105,40 @@ func TestVerifC07(t *testing.T) {
 				inject(ok)
 				before := len(w.files.calls)
 				kind := "endpoints"
-				if len(c.Services) > 0 && r.Chance(3, 4) {
+				switch {
+				case r.Chance(1, 4):
+					// the Service in front of NGF itself: handled outside the change processor, refreshes the Gateway
+					// statuses (addresses) from the latest graph and the LAST apply outcome
+					kind = "ngf-service"
+					svc := &apiv1.Service{ObjectMeta: metav1.ObjectMeta{Namespace: vpPodNS, Name: "nginx-gateway", Generation: int64(k + 1)},
+						Spec: apiv1.ServiceSpec{Type: apiv1.ServiceTypeLoadBalancer, Ports: []apiv1.ServicePort{{Port: 80}}},
+						Status: apiv1.ServiceStatus{LoadBalancer: apiv1.LoadBalancerStatus{Ingress: []apiv1.LoadBalancerIngress{{IP: "192.0.2." + strconv.Itoa(1+r.Intn(200))}}}}}
+					if r.Chance(1, 4) {
+						kind = "ngf-service-delete"
+						w.Batch([]interface{}{w.Apply(svc)})
+						w.Batch([]interface{}{w.Remove(svc)})
+					} else {
+						w.Batch([]interface{}{w.Apply(svc)})
+					}
+				case len(c.Services) > 0 && r.Chance(3, 4):
 					sv := c.Services[r.Intn(len(c.Services))]
-					w.Batch([]interface{}{w.Apply(c01Slice(sv.NS, sv.Name, "f"+strconv.Itoa(k%2), []string{"10.7." + strconv.Itoa(k) + "." + strconv.Itoa(1+r.Intn(200))}, true, int64(k+1)))})
-				} else {
+					if r.Chance(1, 3) {
+						// the same slice content again (only the generation moves): the resolved endpoints do not change
+						kind = "endpoints-same"
+						sv = c.Services[r.Intn(len(c.Services))]
+						w.Batch([]interface{}{w.Apply(c01Slice(sv.NS, sv.Name, "same", []string{"10.7.0.1"}, true, int64(2*k+1)))})
+						if len(w.files.calls) > before {
+							reloadOK = ok
+						}
+						// ... and once more with its own outcome
+						ok = !r.Chance(1, 3)
+						inject(ok)
+						before = len(w.files.calls)
+						w.Batch([]interface{}{w.Apply(c01Slice(sv.NS, sv.Name, "same", []string{"10.7.0.1"}, true, int64(2*k+2)))})
+					} else {
+						w.Batch([]interface{}{w.Apply(c01Slice(sv.NS, sv.Name, "f"+strconv.Itoa(k%2), []string{"10.7." + strconv.Itoa(k) + "." + strconv.Itoa(1+r.Intn(200))}, true, int64(k+1)))})
+					}
+				default:
 					kind = "grant"
 					w.Batch([]interface{}{w.Apply(&v1beta1.ReferenceGrant{ObjectMeta: metav1.ObjectMeta{Namespace: "default", Name: "c07-follow", Generation: int64(k + 1)},
 						Spec: v1beta1.ReferenceGrantSpec{
@@ -165,6 +196,9 @@ func vpWipeStatuses(w *vpWorld) {
 	_ = w.k8s.List(ctx, &btps)
 	for i := range btps.Items {
 		btps.Items[i].Status = v1alpha2.PolicyStatus{}
+		if btps.Items[i].Annotations[vsFullAnnotation] != "" {
+			btps.Items[i].Status.Ancestors = vsFullAncestors() // part of the input state, not written by NGF
+		}
 		_ = w.k8s.Status().Update(ctx, &btps.Items[i])
 	}
 }
